@@ -6,6 +6,7 @@ scheduler and drives the Lean models through the very same schedule, checking at
 * `cfg model=<name> k=v …`  — start of a run
 * `call <t> <op> <args…>`   — logical thread `t` starts an operation
 * `pt <t> <tag> <value>`    — thread `t` performs the access following hook point `<tag>` (register value `<value>`)
+* `chk <t> <tag> <value>`   — thread `t` passed hook point `<tag>` (recorded, not a scheduling point): the model must be at the matching place
 * `ret <t> <result…>`       — the operation of `t` returned `<result…>`
 * `obs <key> <values…>`     — something the harness observed on the implementation (drained content, counters, …)
 * anything else (`#…`, `panic …`, `verdict …`) is ignored here (the harness' own oracle deals with it)
@@ -55,6 +56,10 @@ def handle (r : RunState) (ln : Nat) (toks : List String) : RunState :=
         else if am.cmpVal tag && mv != v.toNat! then
           { r with bad := some s!"line={ln} thread {t} hook `{tag}`: code register={v}, model register={mv}" }
         else { r with mach := some (am.step t), steps := r.steps + 1 }
+    | ["chk", t, tag, v] =>
+      match am.check t.toNat! tag v.toNat! with
+      | none => r
+      | some why => { r with bad := some s!"line={ln} thread {t} hook `{tag}`: {why}" }
     | "ret" :: t :: res =>
       let t := t.toNat!
       let got := " ".intercalate res
